@@ -949,6 +949,59 @@ def u_twist(ctx, modname):
               "(x, y) -> (x c^2, y c^3), an injective group homomorphism (Lean GroupLaw.lean scalePt_specAdd, scalePt_injective)")
 
 
+def u_twist_agree(ctx, curve):
+    """optimized twist and reference twist agree: for every affine (x, y) in F_p2 x F_p2 and every z != 0,
+    optimized.twist((x z, y z, z)) is a projective representative of reference.twist((x, y)):
+        rx = RX * rz,  ry = RY * rz   in F_p12 (12 coefficient identities each; real field classes, polyid with char p)."""
+    from pyvc.interp import Obj
+    from contracts.fields import call_method, coeff_abs
+    mref = [m for m, (c, o) in TWIST_MODS.items() if c == curve and not o][0]
+    mopt = [m for m, (c, o) in TWIST_MODS.items() if c == curve and o][0]
+    name = f"{mopt}.twist[= reference]"
+
+    def body(path):
+        it = mk_interp(ctx, f"{mopt}.twist")
+        Mr, Mo = it.prog.load(mref), it.prog.load(mopt)
+        p = it.module_value(Mo, "field_modulus")
+        path.prove(f"{name}/same-modulus", it.module_value(Mr, "field_modulus") == p, detail="both modules over the same prime")
+        path.pc.char = p
+        K = FldKind("ZmodP", modulus=p)
+        F2o, F12o = it.module_value(Mo, "FQ2"), it.module_value(Mo, "FQ12")
+        F2r = it.module_value(Mr, "FQ2")
+
+        def op(a, nm, *args):
+            k_, r_ = call_method(it, a, nm, list(args))
+            if k_ == "raise":
+                raise Unsupported(f"field operation {nm} raised {r_.__name__}")
+            return r_
+
+        def cf(o):
+            return [coeff_abs(c, K) for c in o.attrs["coeffs"]]
+        xs = [Fld(PR_(f"x{i}"), K, reduced=True) for i in range(2)]
+        ys = [Fld(PR_(f"y{i}"), K, reduced=True) for i in range(2)]
+        zs = [Fld(PR_(f"z{i}"), K, reduced=True) for i in range(2)]
+        xo, yo, zo = (it.instantiate(F2o, [list(v)], {}) for v in (xs, ys, zs))
+        xr, yr = (it.instantiate(F2r, [list(v)], {}) for v in (xs, ys))
+        path.assume(FAtom((zs[0] * zs[0] + zs[1] * zs[1]).r.n, False), "z != 0 in F_p2 (norm non-zero)")
+        X, Y = op(xo, "__mul__", zo), op(yo, "__mul__", zo)
+        it.cfg.top = f"{mopt}.twist"
+        k1, ro = call_top(it, get_function(ctx.prog, f"{mopt}.twist"), [(X, Y, zo)])
+        it.cfg.top = f"{mref}.twist"
+        k2, rr = call_top(it, get_function(ctx.prog, f"{mref}.twist"), [(xr, yr)])
+        ok = k1 == "ret" and k2 == "ret" and isinstance(ro, tuple) and len(ro) == 3 and isinstance(rr, tuple) and len(rr) == 2
+        path.prove(f"{name}/ensures.shape", ok, detail="both return points with FQ12 coordinates")
+        if not ok:
+            return
+        rx, ry, rz = ro
+        for lab, a, R_ in (("x", rx, rr[0]), ("y", ry, rr[1])):
+            Ro = it.instantiate(F12o, [cf(R_)], {})            # the reference coordinate, read in the optimized class
+            prod = op(Ro, "__mul__", rz)
+            for i, (u, v) in enumerate(zip(cf(a), cf(prod))):
+                path.prove(f"{name}/ensures.{lab}", FAtom((u - v).r.n, True),
+                           detail=f"optimized {lab}-coordinate = reference {lab}-coordinate * z (coefficient of w^{i})")
+    ctx.ex.run(body, name)
+
+
 def PR_(name):
     from pyvc.poly import Poly, R as _R
     return _R(Poly.var(name))
@@ -957,3 +1010,6 @@ def PR_(name):
 for _m, (_c, _o) in TWIST_MODS.items():
     _s = _m.split(".")[1]
     UNITS[f"{_s}.twist"] = Unit(f"{_s}.twist", u_twist, [f"{_m}.twist"], props=("C07", "C05"), args=(_m,), budget_s=300)
+for _c in ("bn128", "bls12_381"):
+    UNITS[f"twist.agree.{_c}"] = Unit(f"twist.agree.{_c}", u_twist_agree,
+                                      [m + ".twist" for m, (c, o) in TWIST_MODS.items() if c == _c], props=("C07", "C12"), args=(_c,), budget_s=300)
